@@ -1157,3 +1157,84 @@ func observedOnAllPaths(v ssa.Value) bool {
 	}
 	return walk(b, idx, map[ssa.Value]bool{v: true})
 }
+
+
+// The same discipline for resolution: an error produced while references, URIs and JSON Pointers are resolved
+// (a dangling pointer, an unknown anchor, a loader failure) must make Resolve fail. Every error-typed result
+// of a call in a package function of the resolution closure is looked at on every path before the function
+// returns; an error that is overwritten first (one `err` shared by the $ref and the $dynamicRef step) leaves a
+// reference unresolved in a schema that Resolve reports as fine.
+func ruleResolveErrorsChecked(c *Ctx, rule string) {
+	n := 0
+	ev := c.Closure(rule, "EV")
+	for _, fn := range c.Closure(rule, "RES").Sorted() {
+		if !c.P.InPkg(fn) || len(fn.Blocks) == 0 || ev.Has(fn) {
+			continue
+		}
+		per := map[string]int{}
+		core.EachInstr(fn, func(i ssa.Instruction) {
+			call, ok := i.(*ssa.Call)
+			if !ok {
+				return
+			}
+			res := call.Call.Signature().Results()
+			if res.Len() == 0 || !isErrorType(res.At(res.Len()-1).Type()) {
+				return
+			}
+			var errVal ssa.Value = call
+			if res.Len() > 1 {
+				errVal = nil
+				if refs := call.Referrers(); refs != nil {
+					for _, r := range *refs {
+						if ex, ok := r.(*ssa.Extract); ok && ex.Index == res.Len()-1 {
+							errVal = ex
+						}
+					}
+				}
+			}
+			n++
+			key := core.CalleeKey(&call.Call)
+			if key == "dynamic" {
+				// a call of a local closure: name the closure
+				for _, src := range append(traceSources(call.Call.Value), call.Call.Value) {
+					if mc, ok := src.(*ssa.MakeClosure); ok {
+						key = core.FuncName(mc.Fn.(*ssa.Function))
+					}
+					if f, ok := src.(*ssa.Function); ok {
+						key = core.FuncName(f)
+					}
+				}
+			}
+			per[key]++
+			construct := fmt.Sprintf("%s:%s#%d", core.FuncName(fn), key, per[key])
+			if errVal != nil && !valueObserved(errVal, map[ssa.Value]bool{}) {
+				errVal = nil // the result is not used at all
+			}
+			if errVal == nil {
+				// `_ =` is a visible decision of the author; the frozen exceptions are listed with their reason
+				top := fn
+				for top.Parent() != nil {
+					top = top.Parent()
+				}
+				var ps []string
+				sig := call.Call.Signature()
+				for k := 0; k < sig.Params().Len(); k++ {
+					ps = append(ps, types.TypeString(sig.Params().At(k).Type(), func(*types.Package) string { return "" }))
+				}
+				if why, ok := resolveErrorsIgnored[core.FuncName(top)+":func("+strings.Join(ps, ",")+") error"]; ok {
+					c.R.OKTable(rule, construct, c.pos(call), "error deliberately ignored: "+why)
+					return
+				}
+				c.R.Bad(rule, construct, c.pos(call), "the error result of this call is discarded: a failure of this resolution step goes unreported")
+				return
+			}
+			c.R.Check(observedOnAllPaths(errVal), rule, construct, c.pos(call), "the error is tested or returned", "the error returned here is never looked at on some path (it is overwritten or dropped before any test): Resolve succeeds although this step failed, e.g. a dangling $ref next to a valid $dynamicRef stays unresolved")
+		})
+	}
+	c.R.Floor(rule, "error-returning calls in the resolution code", n, 10)
+}
+
+// errors of the resolution code that are ignored on purpose on the pinned tree (function:callee -> reason)
+var resolveErrorsIgnored = map[string]string{
+	"resolveURIs:func(*Schema,*resolvedInfo,string,bool) error": "setAnchor reports a second declaration of an anchor name in one resource; the resolver keeps the first declaration (children are walked in sorted order) and goes on - no reference is left unresolved by this, and the JSON Schema specification leaves duplicate anchors undefined",
+}
